@@ -177,7 +177,10 @@ Fixpoint comb (sw : bool) (a b : ty) {struct a} : option ty :=
                           | Some s => Some (mk_composite t s)
                           | None => None
                           end
-             | None => None                   (* b GENERIC: a nil *Type is dereferenced (t.Fixed / combinedT.Fixed) *)
+             | None =>                        (* b GENERIC (Sub nil): inner call on (t.Sub, c.Sub) with one nil *)
+                 if sw then None              (* c = b: t' = c.Sub = nil, t'.Fixed dereferences nil *)
+                 else                         (* t = b: Equals(nil, a') false; a'.Fixed || nil.Fixed *)
+                   (if fixed a' then Some (mk_composite t TAny) else None)
              end
          | _ =>                               (* a GENERIC (Sub nil), b composite with Sub b' *)
              match sub b with
@@ -551,17 +554,6 @@ Fixpoint tc (e : expr) : outcome :=
   end.
 
 (* ---------- statement contexts (parser.go) ---------- *)
-Inductive ctx : Set :=
-| CDecl                    (* x := e                       parseInferredDeclStatement *)
-| CAssign (t : sty)        (* v:T ; v = e                  parseAssignmentStatement *)
-| CParam (t : sty)         (* func f p:T ; f e             assertArgTypes *)
-| CVariadic (t : sty)      (* func f p:T... ; f e          assertArgTypes, variadic branch *)
-| CReturn (t : sty)        (* func f:T ; return e          parseReturnStatement *)
-| CGenericArr              (* parameter of type GENERIC_ARRAY (builtin) *)
-| CGenericMap              (* parameter of type GENERIC_MAP   (builtin has/del) *)
-| CCond                    (* if e / while e               parseCondition *)
-| CRange.                  (* for x := range e             parseForStatement *)
-
 Inductive result : Set :=
 | Accept (static : ty) (shown : ty)   (* static: the type the context ends up with (declared variable / target / loop
                                          variable); shown: the type of the value node as typeof would report it when the
